@@ -205,13 +205,25 @@ fn svd_from_vectors<const D: usize>(
     let result = matrix.svd(false, true);
     let v_t = result.v_t.unwrap();
 
+    // The right singular vectors are reliable, but for exactly rank deficient input (collinear or coplanar
+    // points in a general pose) nalgebra 0.33 can return wrong singular values next to them.  The singular
+    // value that belongs to a right singular vector v is |M v|, so it is computed from the vector itself.
+    let mut axes = Vec::with_capacity(D);
+    for i in 0..D {
+        let mut v = SVector::<f64, D>::zeros();
+        for j in 0..D {
+            v[j] = v_t[(i, j)];
+        }
+        let scale = vecs.iter().map(|p| p.dot(&v).powi(2)).sum::<f64>().sqrt();
+        axes.push((scale, v));
+    }
+    axes.sort_by(|a, b| b.0.total_cmp(&a.0));
+
     let mut basis = [SVector::<f64, D>::zeros(); D];
     let mut scales = [0.0; D];
-    for i in 0..D {
-        for j in 0..D {
-            basis[i][j] = v_t[(i, j)];
-        }
-        scales[i] = result.singular_values[i];
+    for (i, (scale, v)) in axes.into_iter().enumerate() {
+        basis[i] = v;
+        scales[i] = scale;
     }
 
     SvdBasis {
